@@ -299,4 +299,13 @@ theorem C12_snr (v : UInt8) : F.eq (snrOf v) (.fin ((int8 v : Rat) / 4)) = true 
 /-- **C12, FSK RSSI decode.** `-RssiValue / 2` dBm, truncated toward zero, for all 256 values. -/
 theorem C12_fsk_rssi : ∀ v : UInt8, fskRssiOf v = -((v.toNat / 2 : Nat) : Int) := fun _ => rfl
 
+/-- the constants the conversions use are the datasheet's: RSSI offsets -157 dBm (HF port) and
+    -164 dBm (LF port), crystal 32 MHz (as binary32), Fstep = 32 MHz / 2^19 and the
+    frequency-error factor 2^24 / 32 MHz as the compiler folds them to binary32 -/
+theorem C12_constants_are_datasheet :
+    Gen.RSSI_OFFSET_HF_PORT = 157 ∧ Gen.RSSI_OFFSET_LF_PORT = 164 ∧
+    Gen.SX127x_OSCILLATOR_FREQUENCY_bits = 0x4bf42400 ∧ Gen.SX127x_FSTEP_bits = 0x42742400 ∧
+    Gen.SX127x_FREQ_ERROR_FACTOR_bits = 0x3f0637bd := by
+  decide
+
 end Sx
